@@ -23,6 +23,7 @@ RULE = ("six case families drawn per case: laws (Channel.modulate on delta / ste
         "non-trivial = distinct (family / waveform kind, bandwidth bucket, duration bucket) in which the deciding monitor "
         "ran (for fall-*: the tail after the fall time reached 10% of the bound; for prog: a modulated channel with a "
         "pending fall time, an EOM block or an empty channel)")
+RULE += " Later additions: metamorphic: a pulse on another channel ending shortly after P1 never makes P2 (another phase) start earlier than without it, nor inside P1's fall time."
 ASSUMPTIONS = [
     "bandwidths <= 100 MHz: above, a Gaussian of that width is not representable on the 1-ns grid (its gain at the Nyquist "
     "frequency exceeds 1e-8) and sign/maximum tolerances are widened by that gain times sum|x|",
